@@ -261,7 +261,8 @@ FANENV = {'ITV_SNAP_EVERY': '1000000', 'ITV_HIST_TIMEOUT': '20'}
 def fan(kind, tier, build='release'):
     """kind among map, set, key"""
     if kind == 'key':
-        return [(build, 'fankey', 40 if tier == 'quick' else 400, 0, FANENV)]
+        n, reps = (50, 3) if tier == 'quick' else (200, 6)
+        return [(build, 'fankey', n, 0, FANENV) for _ in range(reps)]
     n1, n2, reps = (60, 30, 2) if tier == 'quick' else (300, 150, 4)
     return [(build, 'fan' + kind, n1, 0, FANENV) for _ in range(reps)] + [(build, 'fan' + kind, n2, 2, FANENV) for _ in range(reps)]
 
@@ -283,3 +284,19 @@ for _pid, _kinds in FAN_FOR.items():
 for _tier in ('quick', 'thorough'):
     PROPS['C10']['batches'][_tier] = (PROPS['C10']['batches'][_tier] + fan('map', _tier, 'debug') + fan('set', _tier, 'debug')
                                       + fan('key', _tier, 'debug'))
+
+FAN_FOR_KEY_EXTRA = ['C19']
+for _pid in FAN_FOR_KEY_EXTRA:
+    for _tier in ('quick', 'thorough'):
+        PROPS[_pid]['batches'][_tier] = PROPS[_pid]['batches'][_tier] + fan('key', _tier)
+
+# panic injection into every removal / expiring look-up from mid-size states (sorted runs included), and
+# the dense segment-tree states with every drop point of a first query (harness/src/big.rs
+# gen_fan_inject, gen_fan_seg)
+INJENV = {'ITV_HIST_TIMEOUT': '20'}
+PROPS['C18']['batches']['quick'] = PROPS['C18']['batches']['quick'] + [('debug', 'faninject', 6, 0, INJENV), ('debug', 'faninject', 6, 0, INJENV)]
+PROPS['C18']['batches']['thorough'] = PROPS['C18']['batches']['thorough'] + [('debug', 'faninject', 12, 0, INJENV) for _ in range(6)] + [('release', 'faninject', 12, 0, INJENV) for _ in range(3)]
+for _pid in ('C03', 'C16', 'C10'):
+    _b = 'debug' if _pid == 'C10' else 'release'
+    PROPS[_pid]['batches']['quick'] = PROPS[_pid]['batches']['quick'] + [(_b, 'fanseg', 4, 0, SEGENV), (_b, 'fanseg', 4, 0, SEGENV)]
+    PROPS[_pid]['batches']['thorough'] = PROPS[_pid]['batches']['thorough'] + [(_b, 'fanseg', 8, 0, SEGENV) for _ in range(8)]
